@@ -101,7 +101,15 @@ pub fn k4_name(n: &str) -> bool {
     let ud = |x: char| x == '_' || x == '-';
     (0..c.len().saturating_sub(2)).any(|i| ud(c[i]) && c[i + 1] == '-' && ud(c[i + 2]))
 }
-/// 0 inside the domain, 1 known class K4, 2 outside the domain (non-atom_char identifier characters)
+fn placeholder_with_name(t: &LTerm) -> bool {
+    match t {
+        LTerm::Atom { prefix, name } => prefix == "_" && !name.is_empty(),
+        LTerm::Compound { terms, .. } | LTerm::Set { terms, .. } => terms.iter().any(placeholder_with_name),
+        LTerm::Statement { subject, predicate, .. } => placeholder_with_name(subject) || placeholder_with_name(predicate),
+    }
+}
+/// 0 inside the domain, 1 known class K4, 2 outside the domain (non-atom_char identifier characters),
+/// 3 outside the domain (lexical values only): the placeholder prefix `_` carrying a name
 fn class_of(v: &LNarsese) -> u8 {
     let mut names = vec![];
     lnames(lterm_of(v), &mut names);
@@ -109,6 +117,8 @@ fn class_of(v: &LNarsese) -> u8 {
         2
     } else if names.iter().any(|n| k4_name(n)) {
         1
+    } else if placeholder_with_name(lterm_of(v)) {
+        3
     } else {
         0
     }
@@ -176,7 +186,8 @@ fn dicts() -> Dicts {
 fn gen_latom(rng: &mut Rng, d: &Dicts) -> LTerm {
     let prefix = if rng.chance(1, 2) { String::new() } else { rng.pick::<String>(&d.prefixes).clone() };
     if prefix == "_" {
-        return LTerm::new_atom("_", ""); // the placeholder
+        // the placeholder; rarely with a name (class 3: the library round-trips `_a`, the grammar does not accept it)
+        return if rng.chance(1, 12) { LTerm::new_atom("_", gen_name(rng, NameStyle::Ascii)) } else { LTerm::new_atom("_", "") };
     }
     let name = if prefix == "+" && rng.chance(2, 3) { format!("{}", rng.below(100000)) } else { readme_name(rng) };
     LTerm::new_atom(prefix, name)
@@ -246,6 +257,8 @@ fn lexicon_tour(d: &Dicts) -> Vec<LNarsese> {
     for p in &d.prefixes {
         out.push(LNarsese::Term(if p == "_" { LTerm::new_atom("_", "") } else { LTerm::new_atom(p.clone(), "x1") }));
     }
+    out.push(LNarsese::Term(LTerm::new_atom("_", "a"))); // class 3 witness
+    out.push(LNarsese::Term(LTerm::new_statement("-->", LTerm::new_atom("_", "x1"), b())));
     for c in &d.connecters {
         out.push(LNarsese::Term(LTerm::new_compound(c.clone(), vec![a(), b()])));
         out.push(LNarsese::Term(LTerm::new_compound(c.clone(), vec![LTerm::new_atom("_", ""), LTerm::new_atom("$", "v")])));
